@@ -561,6 +561,9 @@ def check(prog, rep):
         for backend in ('numpy', 'dask'):
             kern, arrays = analyse_index(prog, rep, pub, paths[backend], text)
             kerns[backend] = kern
+        # glue around the dispatch: bands in as given (cast to float), backend result out as it is
+        from ..sharedrules import check_dispatch_passthrough
+        check_dispatch_passthrough(prog, rep, 'M8-pass', dfunc if dfunc is not pub else pub, entry=name)
         rep.add('M-sibling', pub, name, 'numpy kernel %s / dask block function %s'
                 % (kerns['numpy'].qualname, kerns['dask'].qualname), pub.node.lineno,
                 kerns['numpy'] is kerns['dask'], 'both backends must run the same per-cell kernel')
@@ -572,6 +575,7 @@ def check(prog, rep):
     check_validate_arrays(prog, rep, 'M6-helper', 'validate_arrays')
     check_true_color(prog, rep)
     check_sentinels(prog, rep, m, list(FORMULAS) + ['true_color'])
+    rep.floor('M8-pass', 30)
     rep.floor('M7-sentinel', 11)
     rep.floor('M1', 20)
     rep.floor('M6-helper', 2)
